@@ -1616,12 +1616,23 @@ func (e *ForExpr) Value(ctx *hcl.EvalContext) (cty.Value, hcl.Diagnostics) {
 			} else {
 				k := key.AsString()
 				if _, exists := vals[k]; exists {
+					// We must not include the key in the message if it is
+					// marked, because we don't know what the marks mean
+					// (e.g. the value could be sensitive).
+					// That includes marks on the collection or the condition,
+					// which the key may have been derived from.
+					keyDesc := fmt.Sprintf("the key %q", k)
+					for _, m := range marks {
+						if len(m) > 0 {
+							keyDesc = "the same key"
+						}
+					}
 					diags = append(diags, &hcl.Diagnostic{
 						Severity: hcl.DiagError,
 						Summary:  "Duplicate object key",
 						Detail: fmt.Sprintf(
-							"Two different items produced the key %q in this 'for' expression. If duplicates are expected, use the ellipsis (...) after the value expression to enable grouping by key.",
-							k,
+							"Two different items produced %s in this 'for' expression. If duplicates are expected, use the ellipsis (...) after the value expression to enable grouping by key.",
+							keyDesc,
 						),
 						Subject:     e.KeyExpr.Range().Ptr(),
 						Context:     &e.SrcRange,
